@@ -251,7 +251,10 @@ def top_level_malformed(buf: bytes) -> Optional[str]:
         return s if s.startswith(ENFORCED) else None
 
 
-class _Timeout(Exception):
+CPU_LIMIT_S = 5.0
+
+
+class _Timeout(BaseException):
     pass
 
 
@@ -268,6 +271,7 @@ class _Run:
         self.evals = 0
         self.h = hashlib.sha1()
         self.rot = 0
+        self.current = b""
 
     # -- decoding through the entry points -------------------------------------------------------
     def _decode_one(self, cls, data: bytes, entry: int):
@@ -289,6 +293,8 @@ class _Run:
     def decode(self, cls, data: bytes, kind: str):
         """parse + one rotating other entry point; they must agree.  Returns ('ok', msg) / ('raise', exc)."""
         self.evals += 1
+        self.current = data
+        signal.setitimer(signal.ITIMER_VIRTUAL, CPU_LIMIT_S)
         st, got = self._decode_one(cls, data, 0)
         self.rot = (self.rot + 1) % 9
         if self.rot % 3:
@@ -418,15 +424,17 @@ class _Run:
         trace.append(f"{cls.__name__} writer={writer} enc={len(enc)}B {enc.hex()[:120]} {short(msg, 120)}")
         top = wire.parse_fields(enc)
         bounds = [f.start for f in top] + [len(enc)]
-        old = signal.signal(signal.SIGALRM, _alarm)
-        signal.setitimer(signal.ITIMER_REAL, 60.0)
+        # M1 is judged in CPU time of this process (ITIMER_VIRTUAL), re-armed for every mutated input:
+        # wall-clock time would turn machine load into a verdict.
+        old = signal.signal(signal.SIGVTALRM, _alarm)
         try:
             self._faults(cls, ci, enc, base, top, bounds, thorough)
         except _Timeout:
-            raise Violation("C17.M1", "did-not-terminate", f"decoding a mutation of {enc.hex()[:120]} ran for 60 s")
+            raise Violation("C17.M1", "did-not-terminate",
+                            f"decoding {self.current.hex()[:160]} ({cls.__name__}) used more than {CPU_LIMIT_S} s of CPU time")
         finally:
-            signal.setitimer(signal.ITIMER_REAL, 0)
-            signal.signal(signal.SIGALRM, old)
+            signal.setitimer(signal.ITIMER_VIRTUAL, 0)
+            signal.signal(signal.SIGVTALRM, old)
         trace.append(f"decodes={self.evals} outcome-hash={self.h.hexdigest()[:16]}")
         return True, self.evals, float(self.evals)
 
@@ -465,7 +473,7 @@ class _Run:
         for offs, kind in ((tags, "tag-byte"), (lens, "length-byte")):
             for off in offs:
                 b = enc[off]
-                if thorough and n <= 64:
+                if thorough and n <= 40:
                     alts = [x for x in range(256) if x != b]
                 else:
                     alts = {b ^ 0x80, b ^ 0x01, 0x00, 0xFF, (b + 1) & 0xFF, (b - 1) & 0xFF}
@@ -559,7 +567,7 @@ class CorruptSim(Simulator):
     generation_rule = ("Each history draws a message class and an in-domain value, encodes it (betterproto or reference "
                        "writer), then applies the whole storage-fault space to the stored bytes: truncation at EVERY byte "
                        "(encodings <= 128 B), replacement of every tag byte and every length byte at every nesting depth "
-                       "(structured alternatives + 6 drawn; all 255 in the thorough tier for encodings <= 64 B), the last byte of "
+                       "(structured alternatives + 6 drawn; all 255 in the thorough tier for encodings <= 40 B), the last byte of "
                        "every nested-message / map-entry / packed payload (dangling continuation bit), every "
                        "known field re-sent under every non-fitting legal wire type, wire types 6/7, field number 0, "
                        "proto2 groups colliding with known numbers, over-long varints, lengths past the end / 2^63, "
@@ -580,6 +588,7 @@ class CorruptSim(Simulator):
                        "fault:truncate-inside-field", "fault:replace-tag-byte", "fault:replace-length-byte",
                        "fault:replace-last-byte-of-nested-or-packed-payload"]
     thorough = False
+    run_watchdog_s = 1800        # wall-clock guard against a hung worker only; M1 itself is judged in CPU time
 
     def prepare(self, tier):
         schemas.warm()
